@@ -582,11 +582,11 @@ async fn judge_inproc(state: &State, cfg: &Cfg, r: &ReqLit, sink: &Sink<'_>, tra
     let cfgs = format!("psk {}, obfs {}, backend {}", if cfg.psk.is_some() { "configured" } else { "not configured" }, cfg.obfs, cfg.backend);
     match &out {
         Out::Panic(p) => {
-            sink.viol(format!("{transport}.panic.{}", path_class(&path)), format!("the service panicked: {p} [{cfgs}] {}", r.to_json()), rj());
+            sink.viol(format!("panic.{}", path_class(&path)), format!("the service panicked: {p} [{cfgs}] {}", r.to_json()), rj());
             return out;
         }
         Out::Hang => {
-            sink.viol(format!("{transport}.hang.{}", path_class(&path)), format!("no response within 20 s [{cfgs}] {}", r.to_json()), rj());
+            sink.viol(format!("hang.{}", path_class(&path)), format!("no response within 20 s [{cfgs}] {}", r.to_json()), rj());
             return out;
         }
         _ => {}
@@ -604,7 +604,7 @@ async fn judge_inproc(state: &State, cfg: &Cfg, r: &ReqLit, sink: &Sink<'_>, tra
     if path != "/ws" {
         t.ref_invalid.fetch_add(1, Ordering::Relaxed);
         if out.status() == Some(101) {
-            sink.viol(format!("{transport}.upgrade-granted.path={}", path_class(&path)), format!("101 for a request whose path is {path:?} [{cfgs}] {}", r.to_json()), rj());
+            sink.viol(format!("upgrade-granted.path={}", path_class(&path)), format!("101 for a request whose path is {path:?} [{cfgs}] {}", r.to_json()), rj());
             return out;
         }
         let special = path == "/health" || path == "/version";
@@ -633,7 +633,7 @@ async fn judge_inproc(state: &State, cfg: &Cfg, r: &ReqLit, sink: &Sink<'_>, tra
                 t.seen_fallback_equal.fetch_add(1, Ordering::Relaxed);
             } else {
                 sink.viol(
-                    format!("{transport}.obfs.{}-distinguishable", path_class(&path)),
+                    format!("obfs.{}-distinguishable.backend-{}", path_class(&path), cfg.backend),
                     format!("with obfuscation on, {path} answers {} but the unknown path {tp} answers {} [{cfgs}] {}", last.0.brief(), last.1.brief(), r.to_json()),
                     rj(),
                 );
@@ -644,7 +644,7 @@ async fn judge_inproc(state: &State, cfg: &Cfg, r: &ReqLit, sink: &Sink<'_>, tra
         if cfg.backend != "echo" {
             let ok = matches!(&out, Out::Resp { status: 404, body, .. } if body == NOT_FOUND_BODY.as_bytes());
             if !ok {
-                sink.viol(format!("{transport}.unknown-path.not-the-configured-404.{}", path_class(&path)), format!("unknown path {path:?} answers {} instead of 404 with the configured body [{cfgs}] {}", out.brief(), r.to_json()), rj());
+                sink.viol(format!("unknown-path.not-the-configured-404.{}", path_class(&path)), format!("unknown path {path:?} answers {} instead of 404 with the configured body [{cfgs}] {}", out.brief(), r.to_json()), rj());
             }
         }
         return out;
@@ -656,10 +656,10 @@ async fn judge_inproc(state: &State, cfg: &Cfg, r: &ReqLit, sink: &Sink<'_>, tra
             if let Err(what) = check_101(&out, &keys) {
                 let fl = valid_flavour(cfg, r);
                 if out.status() == Some(101) {
-                    sink.viol(format!("{transport}.101-malformed.{what}"), format!("the 101 response is wrong ({what}): {} [{cfgs}] {}", out.brief(), r.to_json()), rj());
+                    sink.viol(format!("101-malformed.{what}"), format!("the 101 response is wrong ({what}): {} [{cfgs}] {}", out.brief(), r.to_json()), rj());
                 } else {
                     sink.viol(
-                        format!("{transport}.valid-upgrade-refused.psk-{}.{fl}", if cfg.psk.is_some() { "configured" } else { "none" }),
+                        format!("valid-upgrade-refused.psk-{}.{fl}", if cfg.psk.is_some() { "configured" } else { "none" }),
                         format!("a fully valid upgrade request ({fl}) is answered with {} [{cfgs}] {}", out.brief(), r.to_json()),
                         rj(),
                     );
@@ -676,12 +676,12 @@ async fn judge_inproc(state: &State, cfg: &Cfg, r: &ReqLit, sink: &Sink<'_>, tra
             if out.status() == Some(101) {
                 if invalid {
                     sink.viol(
-                        format!("{transport}.upgrade-granted.{why}.psk-{}", if cfg.psk.is_some() { "configured" } else { "none" }),
+                        format!("upgrade-granted.{why}.psk-{}", if cfg.psk.is_some() { "configured" } else { "none" }),
                         format!("101 although the request is not valid ({why}) [{cfgs}] {}", r.to_json()),
                         rj(),
                     );
                 } else if let Err(what) = check_101(&out, &keys) {
-                    sink.viol(format!("{transport}.101-malformed.{what}.{why}"), format!("the 101 response is wrong ({what}): {} [{cfgs}] {}", out.brief(), r.to_json()), rj());
+                    sink.viol(format!("101-malformed.{what}.{why}"), format!("the 101 response is wrong ({what}): {} [{cfgs}] {}", out.brief(), r.to_json()), rj());
                 } else {
                     t.silent_101.fetch_add(1, Ordering::Relaxed);
                 }
@@ -711,7 +711,7 @@ async fn judge_inproc(state: &State, cfg: &Cfg, r: &ReqLit, sink: &Sink<'_>, tra
                 }
             } else {
                 sink.viol(
-                    format!("{transport}.ws-fallback-differs.{why}"),
+                    format!("ws-fallback-differs.{why}.backend-{}", cfg.backend),
                     format!("a non-upgradable request to /ws ({why}) answers {} but the same request on the unknown path {tp} answers {} [{cfgs}] {}", last.0.brief(), last.1.brief(), r.to_json()),
                     rj(),
                 );
@@ -1051,16 +1051,22 @@ async fn judge_wire(state: &State, cfg: &Cfg, r: &ReqLit, sink: &Sink<'_>) -> Wi
     t.cases.fetch_add(1, Ordering::Relaxed);
     // on the wire the OnUpgrade extension is supplied by hyper itself
     let r = &ReqLit { on_upgrade: true, ..r.clone() };
-    let class = classify(cfg, r);
+    // RFC 9110 section 5.5: leading/trailing optional whitespace is not part of a field value,
+    // so the reference judges the trimmed values (the bytes sent stay as they are).
+    let semantic = ReqLit {
+        headers: r.headers.iter().map(|(n, v)| (n.clone(), v.trim_matches(|c| c == ' ' || c == '\t').to_string())).collect(),
+        ..r.clone()
+    };
+    let class = classify(cfg, &semantic);
     let path = r.path().to_string();
     let w = wire_call(state, r).await;
     t.evaluations.fetch_add(1, Ordering::Relaxed);
     let rj = || replay_json("wire", cfg, r);
     let cfgs = format!("psk {}, obfs {}", if cfg.psk.is_some() { "configured" } else { "not configured" }, cfg.obfs);
-    let keys = r.values("sec-websocket-key");
+    let keys = semantic.values("sec-websocket-key");
     match &w.out {
         Out::Panic(p) => {
-            sink.viol(format!("wire.panic.{}", path_class(&path)), format!("panic: {p} [{cfgs}] {}", r.to_json()), rj());
+            sink.viol(format!("panic.{}", path_class(&path)), format!("panic: {p} [{cfgs}] {}", r.to_json()), rj());
             return w;
         }
         Out::Hang | Out::Err(_) => {
@@ -1077,14 +1083,15 @@ async fn judge_wire(state: &State, cfg: &Cfg, r: &ReqLit, sink: &Sink<'_>) -> Wi
     if path != "/ws" {
         t.ref_invalid.fetch_add(1, Ordering::Relaxed);
         if is101 {
-            sink.viol(format!("wire.upgrade-granted.path={}", path_class(&path)), format!("101 on path {path:?} [{cfgs}] {}", r.to_json()), rj());
+            sink.viol(format!("upgrade-granted.path={}", path_class(&path)), format!("101 on path {path:?} [{cfgs}] {}", r.to_json()), rj());
             return w;
         }
         must_equal_twin = cfg.obfs && (path == "/health" || path == "/version");
         if !must_equal_twin && path != "/health" && path != "/version" {
-            let ok = matches!(&w.out, Out::Resp { status: 404, body, .. } if body == NOT_FOUND_BODY.as_bytes());
+            // (a HEAD response has no body on the wire)
+            let ok = matches!(&w.out, Out::Resp { status: 404, body, .. } if body == NOT_FOUND_BODY.as_bytes() || (r.method == "HEAD" && body.is_empty()));
             if !ok {
-                sink.viol(format!("wire.unknown-path.not-the-configured-404.{}", path_class(&path)), format!("{} [{cfgs}] {}", w.out.brief(), r.to_json()), rj());
+                sink.viol(format!("unknown-path.not-the-configured-404.{}", path_class(&path)), format!("{} [{cfgs}] {}", w.out.brief(), r.to_json()), rj());
             }
         }
     } else {
@@ -1097,7 +1104,7 @@ async fn judge_wire(state: &State, cfg: &Cfg, r: &ReqLit, sink: &Sink<'_>) -> Wi
                     o => o.clone(),
                 };
                 if let Err(what) = check_101(&stripped, &keys) {
-                    let key = if is101 { format!("wire.101-malformed.{what}") } else { format!("wire.valid-upgrade-refused.psk-{}.{}", if cfg.psk.is_some() { "configured" } else { "none" }, valid_flavour(cfg, r)) };
+                    let key = if is101 { format!("101-malformed.{what}") } else { format!("valid-upgrade-refused.psk-{}.{}", if cfg.psk.is_some() { "configured" } else { "none" }, valid_flavour(cfg, &semantic)) };
                     sink.viol(key, format!("valid upgrade request answered with {} [{cfgs}] {}", w.out.brief(), r.to_json()), rj());
                 } else if w.tunnel_alive != Some(true) {
                     sink.viol("wire.101-without-tunnel".into(), format!("101 was sent but no WebSocket endpoint answered a Ping on the upgraded connection [{cfgs}] {}", r.to_json()), rj());
@@ -1107,7 +1114,7 @@ async fn judge_wire(state: &State, cfg: &Cfg, r: &ReqLit, sink: &Sink<'_>) -> Wi
             Class::Invalid(why) => {
                 t.ref_invalid.fetch_add(1, Ordering::Relaxed);
                 if is101 {
-                    sink.viol(format!("wire.upgrade-granted.{why}.psk-{}", if cfg.psk.is_some() { "configured" } else { "none" }), format!("101 although the request is not valid ({why}) [{cfgs}] {}", r.to_json()), rj());
+                    sink.viol(format!("upgrade-granted.{why}.psk-{}", if cfg.psk.is_some() { "configured" } else { "none" }), format!("101 although the request is not valid ({why}) [{cfgs}] {}", r.to_json()), rj());
                     return w;
                 }
                 must_equal_twin = true;
@@ -1133,7 +1140,7 @@ async fn judge_wire(state: &State, cfg: &Cfg, r: &ReqLit, sink: &Sink<'_>) -> Wi
                 Class::Invalid(w) | Class::Silent(w) => w.clone(),
                 Class::Valid => "valid".into(),
             };
-            let key = if path == "/ws" { format!("wire.ws-fallback-differs.{why}") } else { format!("wire.obfs.{}-distinguishable", path_class(&path)) };
+            let key = if path == "/ws" { format!("ws-fallback-differs.{why}.backend-none") } else { format!("obfs.{}-distinguishable.backend-none", path_class(&path)) };
             sink.viol(key, format!("{path} answers {} but the unknown path {} answers {} [{cfgs}] {}", w.out.brief(), twin.path(), tw.out.brief(), r.to_json()), rj());
         }
     }
@@ -1225,7 +1232,7 @@ pub fn run(args: &Args) -> Report {
 
     // ---- pass 1: in-process, no backend
     let cfgs = inproc_cfgs("none", &[false]);
-    let k_ext = if thorough { 3 } else { 2 };
+    let k_ext = if thorough { 5 } else { 4 };
     let mut dev = deviations(&all, k_ext);
     if !thorough {
         // quick also covers three simultaneous deviations over the core variants
@@ -1268,7 +1275,7 @@ pub fn run(args: &Args) -> Report {
 
     // ---- pass 2: a backend is configured (echo: reachable; down: unreachable)
     let backends = start_backends();
-    let bdev = deviations(&all, if thorough { 2 } else { 1 });
+    let bdev = deviations(&all, if thorough { 3 } else { 2 });
     let bdev_core = deviations(&core, 2);
     let mut bset: Vec<Vec<usize>> = bdev.clone();
     let have: HashSet<Vec<usize>> = bset.iter().cloned().collect();
